@@ -83,4 +83,54 @@ theorem bitmap_more_iff (o e : Nat) : bitmap_more o e = true ↔ o < e := by sim
 theorem others_count_eq (a b c : Nat) : others_count a b c = a + b + c := rfl
 theorem eager_iff (n : Nat) : eager_others n = true ↔ n = 0 := by simp [eager_others]
 
+/-! ### big-endian fields: the shift-and-or expressions are the usual positional values -/
+
+theorem shl8_or (a b : Nat) (hb : b < 256) : (a <<< 8) ||| b = a * 256 + b := by
+  rw [← Nat.shiftLeft_add_eq_or_of_lt (by simpa using hb), Nat.shiftLeft_eq]
+
+theorem hdr_id_eq (a b : Nat) (hb : b < 256) : hdr_id a b = a * 256 + b := shl8_or a b hb
+theorem hdr_flags_eq (a b : Nat) (hb : b < 256) : hdr_flags a b = a * 256 + b := shl8_or a b hb
+theorem hdr_nq_eq (a b : Nat) (hb : b < 256) : hdr_nq a b = a * 256 + b := shl8_or a b hb
+theorem hdr_nan_eq (a b : Nat) (hb : b < 256) : hdr_nan a b = a * 256 + b := shl8_or a b hb
+theorem hdr_nau_eq (a b : Nat) (hb : b < 256) : hdr_nau a b = a * 256 + b := shl8_or a b hb
+theorem hdr_nad_eq (a b : Nat) (hb : b < 256) : hdr_nad a b = a * 256 + b := shl8_or a b hb
+theorem q_type_eq (a b : Nat) (hb : b < 256) : q_type a b = a * 256 + b := shl8_or a b hb
+theorem q_class_eq (a b : Nat) (hb : b < 256) : q_class a b = a * 256 + b := shl8_or a b hb
+theorem r_type_eq (a b : Nat) (hb : b < 256) : r_type a b = a * 256 + b := shl8_or a b hb
+theorem r_class_eq (a b : Nat) (hb : b < 256) : r_class a b = a * 256 + b := shl8_or a b hb
+theorem r_rdlen_eq (a b : Nat) (hb : b < 256) : r_rdlen a b = a * 256 + b := shl8_or a b hb
+theorem srv_priority_eq (a b : Nat) (hb : b < 256) : srv_priority a b = a * 256 + b := shl8_or a b hb
+theorem srv_weight_eq (a b : Nat) (hb : b < 256) : srv_weight a b = a * 256 + b := shl8_or a b hb
+theorem srv_port_eq (a b : Nat) (hb : b < 256) : srv_port a b = a * 256 + b := shl8_or a b hb
+
+theorem r_ttl_eq (a b c d : Nat) (hb : b < 256) (hc : c < 256) (hd : d < 256) :
+    r_ttl a b c d = (a * 256 + b) * 65536 + (c * 256 + d) := by
+  unfold r_ttl
+  have h1 : (a <<< 24) ||| (b <<< 16) = (a * 256 + b) <<< 16 := by
+    rw [← Nat.shiftLeft_add_eq_or_of_lt (by rw [Nat.shiftLeft_eq]; omega)]
+    simp only [Nat.shiftLeft_eq]; omega
+  have h2 : ((a * 256 + b) <<< 16) ||| (c <<< 8) = ((a * 256 + b) * 256 + c) <<< 8 := by
+    rw [← Nat.shiftLeft_add_eq_or_of_lt (by rw [Nat.shiftLeft_eq]; omega)]
+    simp only [Nat.shiftLeft_eq]; omega
+  rw [h1, h2, ← Nat.shiftLeft_add_eq_or_of_lt (by simpa using hd), Nat.shiftLeft_eq]
+  omega
+
+/-! ### record type dispatch -/
+theorem is_a_iff (t : Nat) : is_a t = true ↔ t = 1 := by simp [is_a]
+theorem is_ptr_iff (t : Nat) : is_ptr t = true ↔ (t = 5 ∨ t = 12) := by simp [is_ptr]
+theorem is_txt_iff (t : Nat) : is_txt t = true ↔ t = 16 := by simp [is_txt]
+theorem is_srv_iff (t : Nat) : is_srv t = true ↔ t = 33 := by simp [is_srv]
+theorem is_hinfo_iff (t : Nat) : is_hinfo t = true ↔ t = 13 := by simp [is_hinfo]
+theorem is_aaaa_iff (t : Nat) : is_aaaa t = true ↔ t = 28 := by simp [is_aaaa]
+theorem is_nsec_iff (t : Nat) : is_nsec t = true ↔ t = 47 := by simp [is_nsec]
+
+/-! ### NSEC bitmaps -/
+theorem bitmap_rdtype_eq (bit w i : Nat) : bitmap_rdtype bit w i = bit + w * 256 + i * 8 := rfl
+
+theorem bitmap_bit_set_iff (byte bit : Nat) (hb : byte < 256) (hbit : bit < 8) :
+    bitmap_bit_set byte bit = true ↔ byte / 2 ^ (7 - bit) % 2 = 1 := by
+  have : ∀ bit, bit < 8 → ∀ byte, byte < 256 →
+      (decide ((byte &&& (128 >>> bit)) ≠ 0) = true ↔ byte / 2 ^ (7 - bit) % 2 = 1) := by decide +kernel
+  exact this bit hbit byte hb
+
 end Zc.GenFacts.Incoming
